@@ -51,7 +51,7 @@ func allocStores(fn *ssa.Function, name string) []string {
 	var out []string
 	ir.Instrs(fn, func(in ssa.Instruction) {
 		if st, ok := in.(*ssa.Store); ok {
-			if al, ok := st.Addr.(*ssa.Alloc); ok && al.Comment == name {
+			if al, ok := st.Addr.(*ssa.Alloc); ok && ir.LocalName(al.Parent(), al.Comment) == name {
 				out = append(out, ir.Render(st.Val))
 			}
 		}
@@ -225,7 +225,7 @@ func C13(p *ir.Program, r *report.R) {
 		startOK := false
 		for _, b := range fn.Blocks {
 			for _, in := range b.Instrs {
-				if ph, ok := in.(*ssa.Phi); ok && ph.Comment == "minHeight" {
+				if ph, ok := in.(*ssa.Phi); ok && ir.LocalName(ph.Parent(), ph.Comment) == "minHeight" {
 					for _, e := range ph.Edges {
 						s := ir.Render(e)
 						if strings.Contains(s, "loadStartDeleteHeight(") {
